@@ -11,7 +11,7 @@ from mc.core import Acc, Hang, fp_hash, horizon
 
 ID = "C12"
 RULE = ("E-INPUT: every (domain, range, query) with domain/range end points from 13 floats of magnitude 1e-6..1e9 (both signs, "
-        "both orders, a != b) + a seeded value, queries = end points, interior and exterior points; exact affine reference in "
+        "both orders, a != b) + a seeded value + near-tie domains v..v(1+2^-40|1e-10|3e-7), queries = end points, interior and exterior points; exact affine reference in "
         "rationals; clamp on/off. E-HIST: BFS over every history of domain(3)/range(3)/clamp(2)/nice()/nice(3)/copy() calls on "
         "a pool of <=3 scales up to the depth bound (quick 4, thorough 6), each state rebuilt by replaying the history on fresh "
         "real objects, dedup by object-graph fingerprint incl. aliasing; invariants: end points of the reported domain map to "
@@ -19,7 +19,7 @@ RULE = ("E-INPUT: every (domain, range, query) with domain/range end points from
         "Non-trivial (E-HIST): transitions on pools with >= 2 scales; (E-INPUT): query not an end point.")
 ASSUMPTIONS = ["float error bar: 8 eps (|r0|+|r1|)(1+|t|) forward, propagated through the second map for round trips",
                "caller-side aliasing (mutating a list after passing it in) is outside the claim: arguments are fresh lists"]
-REQUIRED_COUNTERS = ("grid_evaluations", "hist_transitions", "hist_multi_scale_transitions", "hist_nice_after_copy")
+REQUIRED_COUNTERS = ("grid_evaluations", "hist_transitions", "hist_multi_scale_transitions", "hist_nice_after_copy", "near_tie_domains")
 EPS = 2.220446049250313e-16
 VALS = [0.0, 1e-6, -1e-6, 0.13, -0.13, 1.0, -1.0, 9.7, -9.7, 360.0, -360.0, 1e9, -1e9]
 
@@ -212,6 +212,19 @@ def bfs(prefix, depth, acc):
     return seen
 
 
+def near_ties(vals):
+    """Non-degenerate domains much narrower than their magnitude (both orders)."""
+    out = []
+    for v in vals:
+        if v == 0:
+            continue
+        for rel in (2.0 ** -40, 1e-10, 3e-7):
+            w = v * (1 + rel)
+            if w != v:
+                out += [(v, w), (w, v)]
+    return out
+
+
 def plan(tier, seed):
     shards = []
     vals = VALS + [_seedval(seed)]
@@ -231,7 +244,9 @@ def run_shard(shard):
         vals = VALS + [_seedval(shard["seed"])]
         pairs = [(a, b) for a in vals for b in vals if a != b]
         k = 0
-        for (a, b) in pairs:
+        for (a, b) in pairs + near_ties(vals):
+            if abs(b - a) < 1e-3 * max(abs(a), abs(b)):
+                acc.counters["near_tie_domains"] += 1
             for (r0, r1) in pairs:
                 k += 1
                 if k % shard["mod"] != shard["rem"]:
